@@ -31,7 +31,7 @@ def digest_dir(d):
 def explore(ck):
     r = ck.rng; quick = ck.tier == 'quick'
     ck.rule = ('the real binary on chains with 40-120 transactions per block and up to 60 outputs per transaction (the same hash under P2PKH and P2SH side by side), RAYON_NUM_THREADS in {1,2,3,8,16,64}, '
-               'repeated runs sharing ONE data directory (index reopened) and ONE dump folder pre-seeded with stale *.tmp files longer than the new output and with earlier results, under CPU contention; '
+               'repeated runs sharing ONE data directory (index reopened) and ONE dump folder pre-seeded with stale *.tmp files longer than the new output and with earlier results, under CPU contention; plus a 48-block index with stale siblings at every third height and a range whose unspent/balances result is header-only; '
                'every run must equal the single model output (csvdump byte for byte, simplestats, opreturn lines, unspent/balances row sets); SHA-256 of blk*.dat / xor.dat and the dumped key/value '
                'set of the index must be the same before and after. Non-trivial: a block with >= 32 transactions or a transaction with >= 32 outputs; distinct by (case, threads, callback, run number).')
     ck.explanation = ('Proved in Coq: writing result i into slot i in any completion order equals the sequential map (collect_any_order), the model functions are pure, and the output protocol does not '
@@ -42,6 +42,17 @@ def explore(ck):
         coin = ['litecoin', 'bitcoin', 'dogecoin', 'testnet3', 'namecoin', 'unobtanium'][k]
         c = Case('p%d' % k, coin).simple_layout(wide_chain(r, coin, 2 if quick else 3, quick)); c.xor = gen.rb(r, 8) if k % 2 else None
         cases.append(c)
+    # an index with stale siblings (data present, hash sorting before the active block: the active block wins) at every third height of a 48-block chain:
+    # which record survives must not depend on how a parallel loader would split the records
+    fb = gen.random_chain(r, 'bitcoin', 48, max_tx=1, script_kinds=['p2pkh', 'opret_small']); fc = Case('fork13', 'bitcoin').simple_layout(fb)
+    for h in range(2, 48, 3):
+        for _ in range(3000):
+            sb = Block(fb[h].prev, [coinbase_tx(h, [(3, P2PKH(gen.rb(r, 20)))], extra=gen.rb(r, 4))], time=r.getrandbits(31), nonce=r.getrandbits(32))
+            if sb.hash < fb[h].hash: off = fc.put_block(1, sb.raw); fc.add_record(sb, h, 1, off, status=0x1d); break
+    cases.append(fc)
+    # a range without any address-bearing output: unspent / balances consist of the header only and must still replace an earlier result of the same name
+    from . import c07
+    cases.append(Case('noaddr13', 'litecoin').simple_layout(c07.noaddr_history(r, 4)[0]))
     models = run.run_model(ck.tools, cases, ['csv', 'unspent', 'balances', 'opreturn', 'stats'])
     threads = [1, 2, 3, 8, 16, 64]
     for c in cases:
